@@ -10,7 +10,7 @@ import (
 )
 
 func docNames() []string {
-	return []string{"a.pdf", "pending.pdf", "broken.pdf", "ties.pdf", "widths.pdf", "forms.pdf", "badkid.pdf", "hf.pdf", "samebase.pdf", "hex.pdf", "a.docx", "a.odt", "a.xlsx", "a.pptx", "a.epub", "a.html"}
+	return []string{"a.pdf", "pending.pdf", "broken.pdf", "ties.pdf", "widths.pdf", "forms.pdf", "badkid.pdf", "hf.pdf", "samebase.pdf", "hex.pdf", "rev2.pdf", "a.docx", "a.odt", "a.xlsx", "a.pptx", "a.epub", "a.html"}
 }
 
 func writeDocs(dir string) {
